@@ -247,9 +247,14 @@ def execute(case, result):
     # a Python configuration may be called like a module it imports (cobald.py, vplug.py): it is not that module
     config_name = None
     if case["format"] == "python" and case["suffix"] == ".py" and not case.get("compiled"):
-        config_name = ["config", "cobald", "vplug", "config", "trio"][len(case["text"]) % 5]
-        if config_name != "config":
+        config_name = ["config", "cobald", "vplug", "config", "trio", "pipeline.v2"][len(case["text"]) % 6]
+        if config_name in ("cobald", "vplug", "trio"):
             result.count("python_configs_named_like_a_module_they_import")
+    elif case["format"] == "yaml" and not case["missing_file"]:
+        # what a site calls its file: the extension is what follows the last dot
+        config_name = ["config", "cobald.site-a", "config", ".hidden", "pipeline.v2", "config", "my config.2024-01"][len(case["text"]) % 7]
+    if config_name and "." in config_name:
+        result.count("configs_with_more_than_one_dot_in_the_file_name")
     run = proc.run_daemon(None if case["missing_file"] else case["text"], case["suffix"], ready, config_name=config_name,
                           signal_after=case["signal_after"] if valid else None, timeout=25.0, inject=case.get("inject"), compiled=case.get("compiled", False),
                           wait_ready=20.0 if case.get("many") else 8.0)
@@ -352,7 +357,7 @@ def finish(total, tier):
     need = ["daemons_valid", "daemons_invalid", "daemons_failing", "configs_yaml", "configs_python", "services_checked_trio",
             "services_checked_asyncio", "services_checked_threading", "failing_services_after_start", "valid_with_logging_section", "falsy_services_checked", "private_waiter_services_checked", "services_in_large_injected_configs",
             "failing_services_with_base_exception_threading", "defect_unknown_extension_with_byte_compiled_config",
-            "defect_broken_element", "defect_pipeline_not_a_list", "python_configs_named_like_a_module_they_import", "python_configs_defining_a_dataclass", "services_of_a_class_decorated_twice_checked", "services_that_absorb_one_cancellation_checked", "large_configs_of_mostly_trio_services"]
+            "defect_broken_element", "defect_pipeline_not_a_list", "python_configs_named_like_a_module_they_import", "configs_with_more_than_one_dot_in_the_file_name", "python_configs_defining_a_dataclass", "services_of_a_class_decorated_twice_checked", "services_that_absorb_one_cancellation_checked", "large_configs_of_mostly_trio_services"]
     for name in need:
         if not total.counters.get(name) and not total.violations:
             total.inconc("monitor never observed: " + name)
